@@ -401,7 +401,7 @@ func inRel(rel string, pkgs ...string) bool {
 func (c *Ctx) NoReadAhead() []core.Ob {
 	var obs []core.Ob
 	rootNames := []string{"nbt.(*Decoder).Decode", "nbt.NewDecoder", "nbt.(*RawMessage).UnmarshalNBT", "nbt.(*StringifiedMessage).UnmarshalNBT", "nbt/dynbt.(*Value).UnmarshalNBT",
-		"net/packet.(*Packet).UnPack", "net.(*RCONConn).ReadPacket", "net/packet.(NBTField).ReadFrom"}
+		"net/packet.(*Packet).UnPack", "net.(*RCONConn).ReadPacket", "net/packet.(NBTField).ReadFrom", "net/packet.(*VarInt).ReadFrom", "net/packet.(*VarLong).ReadFrom"}
 	var rs []*ssa.Function
 	for _, n := range rootNames {
 		f := c.Fn(n)
